@@ -1052,8 +1052,9 @@ func (r *Run) runJob(j int, minAge time.Duration, maxDel int, record bool) *Viol
 	if err != nil {
 		panic("HARNESS: projection: " + err.Error())
 	}
-	if before != after {
-		return viol("C15", "row_projection", "job %s (minAge=%v max=%d) changed live rows:\n--- before\n%s--- after\n%s", jobNames[j], minAge, maxDel, before, after)
+	ref := time.Now()
+	if b, a := before.render(ref), after.render(ref); b != a {
+		return viol("C15", "row_projection", "job %s (minAge=%v max=%d) changed live rows:\n--- before\n%s--- after\n%s", jobNames[j], minAge, maxDel, b, a)
 	}
 	if jerr != nil {
 		r.stat("job_error")
@@ -1064,64 +1065,115 @@ func (r *Run) runJob(j int, minAge time.Duration, maxDel int, record bool) *Viol
 
 // projection: live topics, live subscriptions, outstanding deliveries (with the state of
 // their predecessor link) and the messages they reference, read through a harness-owned
-// read-only connection.
-func (r *Run) projection() (string, error) {
+// read-only connection. Rows are returned raw; render(ref) applies the expiry cut at one
+// common reference instant so that the mere passing of time during a job is not a change.
+type projDelivery struct {
+	id, msg        string
+	attempts       int64
+	attemptAt, exp time.Time
+	predID         string
+	predDone       bool
+	predExp        time.Time
+	hasMsg         int64
+}
+type projRows struct {
+	topics, subs, snaps []string
+	dels                []projDelivery
+}
+
+func asTime(v any) time.Time {
+	switch x := v.(type) {
+	case time.Time:
+		return x
+	case string:
+		for _, f := range []string{"2006-01-02 15:04:05.999999999-07:00", "2006-01-02T15:04:05.999999999-07:00", time.RFC3339Nano} {
+			if t, err := time.Parse(f, x); err == nil {
+				return t
+			}
+		}
+	case []byte:
+		return asTime(string(x))
+	}
+	return time.Time{}
+}
+
+func (r *Run) projection() (*projRows, error) {
 	conn, err := sql.Open("sqlite3", "file:"+r.W.file+".sqlite3?mode=ro&_busy_timeout=10000")
 	if err != nil {
-		return "", err
+		return nil, err
 	}
 	defer conn.Close()
-	now := time.Now()
-	var sb strings.Builder
-	q := func(title, query string, args ...any) error {
-		rows, err := conn.Query(query, args...)
+	out := &projRows{}
+	simple := func(dst *[]string, query string) error {
+		rows, err := conn.Query(query)
 		if err != nil {
 			return err
 		}
 		defer rows.Close()
-		cols, _ := rows.Columns()
-		var lines []string
 		for rows.Next() {
-			vals := make([]any, len(cols))
-			ptrs := make([]any, len(cols))
-			for i := range vals {
-				ptrs[i] = &vals[i]
-			}
-			if err := rows.Scan(ptrs...); err != nil {
+			var a, b string
+			if err := rows.Scan(&a, &b); err != nil {
 				return err
 			}
-			var parts []string
-			for _, v := range vals {
-				if b, ok := v.([]byte); ok {
-					v = string(b)
-				}
-				parts = append(parts, fmt.Sprint(v))
-			}
-			lines = append(lines, strings.Join(parts, " "))
+			*dst = append(*dst, a+" "+b)
 		}
-		sort.Strings(lines)
-		sb.WriteString("## " + title + "\n" + strings.Join(lines, "\n") + "\n")
+		sort.Strings(*dst)
 		return rows.Err()
 	}
-	if err := q("live topics", "SELECT id, name FROM topics WHERE deleted_at IS NULL"); err != nil {
-		return "", err
+	if err := simple(&out.topics, "SELECT id, name FROM topics WHERE deleted_at IS NULL"); err != nil {
+		return nil, err
 	}
-	if err := q("live subscriptions", "SELECT id, name FROM subscriptions WHERE deleted_at IS NULL"); err != nil {
-		return "", err
+	if err := simple(&out.subs, "SELECT id, name FROM subscriptions WHERE deleted_at IS NULL"); err != nil {
+		return nil, err
 	}
-	// outstanding deliveries; the predecessor link is reported as "blocking" only if it
-	// points at a row that is neither completed nor expired
-	if err := q("outstanding deliveries", `SELECT d.id, d.message_id, d.attempts, d.attempt_at, d.expires_at,
-		CASE WHEN p.id IS NOT NULL AND p.completed_at IS NULL AND p.expires_at > ? THEN p.id ELSE '-' END,
+	if err := simple(&out.snaps, "SELECT id, name FROM snapshots"); err != nil {
+		return nil, err
+	}
+	rows, err := conn.Query(`SELECT d.id, d.message_id, d.attempts, d.attempt_at, d.expires_at,
+		coalesce(p.id,''), p.completed_at IS NOT NULL, p.expires_at,
 		(SELECT count(*) FROM messages m WHERE m.id = d.message_id)
 		FROM deliveries d JOIN subscriptions s ON s.id = d.subscription_id LEFT JOIN deliveries p ON p.id = d.not_before_id
-		WHERE d.completed_at IS NULL AND d.expires_at > ? AND s.deleted_at IS NULL`, now, now); err != nil {
-		return "", err
+		WHERE d.completed_at IS NULL AND s.deleted_at IS NULL`)
+	if err != nil {
+		return nil, err
 	}
-	if err := q("snapshots", "SELECT id, name FROM snapshots"); err != nil {
-		return "", err
+	defer rows.Close()
+	for rows.Next() {
+		var d projDelivery
+		var at, exp, pexp any
+		var pdone any
+		if err := rows.Scan(&d.id, &d.msg, &d.attempts, &at, &exp, &d.predID, &pdone, &pexp, &d.hasMsg); err != nil {
+			return nil, err
+		}
+		d.attemptAt, d.exp, d.predExp = asTime(at), asTime(exp), asTime(pexp)
+		if b, ok := pdone.(int64); ok && b != 0 {
+			d.predDone = true
+		}
+		if b, ok := pdone.(bool); ok && b {
+			d.predDone = true
+		}
+		out.dels = append(out.dels, d)
 	}
-	return sb.String(), nil
+	return out, rows.Err()
+}
+
+func (p *projRows) render(ref time.Time) string {
+	var sb strings.Builder
+	sb.WriteString("## live topics\n" + strings.Join(p.topics, "\n") + "\n## live subscriptions\n" + strings.Join(p.subs, "\n") + "\n## snapshots\n" + strings.Join(p.snaps, "\n") + "\n## outstanding deliveries (id message attempts attempt_at expires_at blocking-predecessor message-exists)\n")
+	var lines []string
+	for _, d := range p.dels {
+		if !d.exp.After(ref) {
+			continue
+		}
+		pred := "-"
+		if d.predID != "" && !d.predDone && d.predExp.After(ref) {
+			pred = d.predID
+		}
+		lines = append(lines, fmt.Sprintf("%s %s %d %s %s %s %d", d.id, d.msg, d.attempts, d.attemptAt.UTC().Format(time.RFC3339Nano), d.exp.UTC().Format(time.RFC3339Nano), pred, d.hasMsg))
+	}
+	sort.Strings(lines)
+	sb.WriteString(strings.Join(lines, "\n") + "\n")
+	return sb.String()
 }
 
 func (r *Run) doDLSweep() *Violation {
